@@ -46,11 +46,23 @@ def orbits_of(ops, points, D):
     return out
 
 
-def build_crystal(number, choice, cell, sites_int, D, start_z=1, occ_cycle=True, container="float64"):
+FRAMES = {
+    "rotated": np.array([[0.36, 0.48, -0.8], [-0.8, 0.6, 0.0], [0.48, 0.64, 0.6]]),          # a proper rotation with no zero-free symmetry
+    "permuted": np.array([[0.0, 1.0, 0.0], [0.0, 0.0, 1.0], [1.0, 0.0, 0.0]]),                # Cartesian axes cyclically permuted
+    "mirrored": np.array([[1.0, 0.0, 0.0], [0.0, 0.0, 1.0], [0.0, 1.0, 0.0]]),                # left-handed frame (axes swapped)
+}
+
+
+def frame_matrix(cell, frame):
+    M = lattice.cell_matrix(*cell)
+    return M if not frame else M @ FRAMES[frame].T
+
+
+def build_crystal(number, choice, cell, sites_int, D, start_z=1, occ_cycle=True, container="float64", frame=None):
     from chmpy.crystal import Crystal, SpaceGroup, UnitCell, AsymmetricUnit
     from chmpy.core.element import Element
 
-    uc = UnitCell.from_lengths_and_angles(list(cell[:3]), list(cell[3:]), unit="degrees")
+    uc = UnitCell.from_lengths_and_angles(list(cell[:3]), list(cell[3:]), unit="degrees") if not frame else UnitCell(frame_matrix(cell, frame))
     sg = SpaceGroup(number, choice=choice)
     zs = [((start_z - 1 + i) % 103) + 1 for i in range(len(sites_int))]
     els = [Element.from_atomic_number(z) for z in zs]
@@ -74,7 +86,7 @@ def check_crystal(part, row, ops, cell, sites_int, D, case, slab_bounds=None, st
     sk = "%d:%s" % (number, choice)
     part.ev()
     try:
-        c, zs, labels, occ = build_crystal(number, choice, cell, sites_int, D, start_z, container=container)
+        c, zs, labels, occ = build_crystal(number, choice, cell, sites_int, D, start_z, container=container, frame=case.get("frame"))
         if case.get("variant") == "after-exports":
             # the unit-cell atoms are asked for AFTER the three file exports and a first query have run on the same object (and the
             # dictionary handed out first must itself stay intact): exports are read-only users of the same data
@@ -92,7 +104,7 @@ def check_crystal(part, row, ops, cell, sites_int, D, case, slab_bounds=None, st
         return
     part.tr(len(sites_int) * len(ops))
     frac = np.asarray(uc["frac_pos"])
-    M = lattice.cell_matrix(*cell)
+    M = frame_matrix(cell, case.get("frame"))
     nfail0 = len(part.failures)
     if frac.size and (frac.min() < 0 or frac.max() >= 1):
         part.fail("range:%s" % sk, "fractional coordinate outside [0,1) in %s (min %g max %g)" % (sk, frac.min(), frac.max()), case)
@@ -273,6 +285,11 @@ def plan_for_setting(row, tier, seed):
                   "variant": "int-array", "container": "int"})
     cases.append({"number": number, "choice": choice, "D": N, "sites": reps0[:7], "cell": cells[0], "slab": None, "z0": 11, "variant": "list", "container": "list"})
     cases.append({"number": number, "choice": choice, "D": N, "sites": reps0[:7], "cell": cells[0], "slab": None, "z0": 5, "variant": "after-exports"})
+    # the same cell given by lattice VECTORS in another Cartesian frame (what the POSCAR / .gen readers produce): the fractional
+    # side is unchanged, Cartesian coordinates must follow the given vectors
+    for fi, frame in enumerate(("rotated", "permuted", "mirrored")):
+        cases.append({"number": number, "choice": choice, "D": N, "sites": reps0[:7], "cell": cells[fi % len(cells)], "slab": SLABS[fi % len(SLABS)], "z0": 17,
+                      "variant": "frame:" + frame, "frame": frame})
     Dg = 12 * 997
     for ci, cell in enumerate(cells):
         cases.append({"number": number, "choice": choice, "D": Dg, "sites": generic_sites(seed + ci, Dg, ops), "cell": cell,
